@@ -133,10 +133,10 @@ fn permutations(items: &[u64]) -> Vec<Vec<u64>> {
 #[derive(Debug, Clone, PartialEq)]
 struct Obs {
     /// log indexes (relative) in the order their execution completed
-    exec_order: Vec<u64>,
+    exec_order: Vec<i64>,
     /// per entry: "ok" | "err:<status>:<text>" | "dropped"
     results: Vec<String>,
-    unexecuted: Vec<u64>,
+    unexecuted: Vec<i64>,
     state: Value,
     notes: Vec<String>,
 }
@@ -210,7 +210,7 @@ fn run_scenario(sc: &Scenario, base: &Snapshot, scratch: &Scratch, stats: &Stats
             }
         }
         let k = sc.k as u64;
-        let mut exec_order: Vec<u64> = vec![];
+        let mut exec_order: Vec<i64> = vec![];
         let mut expect_parked: Vec<u64> = (1..=k).collect();
 
         let (mode, j) = match sc.mode.split_once(':') {
@@ -237,7 +237,7 @@ fn run_scenario(sc: &Scenario, base: &Snapshot, scratch: &Scratch, stats: &Stats
                     verif::gate_release(idx);
                     stats.releases.fetch_add(1, Ordering::Relaxed);
                     match tokio::time::timeout(Duration::from_millis(FINISH_WAIT_MS), subscription.recv()).await {
-                        Ok(Ok(v)) => exec_order.push(v - base_index),
+                        Ok(Ok(v)) => exec_order.push(v as i64 - base_index as i64),
                         _ => notes.push(format!("entry {i} did not complete before the restart")),
                     }
                 }
@@ -290,7 +290,7 @@ fn run_scenario(sc: &Scenario, base: &Snapshot, scratch: &Scratch, stats: &Stats
             let Some(pos) = pending.iter().position(|i| parked.contains(&(base_index + i))) else {
                 // nothing releasable yet: collect completions, wait a little
                 while let Ok(v) = subscription.try_recv() {
-                    exec_order.push(v - base_index);
+                    exec_order.push(v as i64 - base_index as i64);
                 }
                 tokio::time::sleep(Duration::from_micros(300)).await;
                 continue;
@@ -303,7 +303,7 @@ fn run_scenario(sc: &Scenario, base: &Snapshot, scratch: &Scratch, stats: &Stats
             loop {
                 match tokio::time::timeout(Duration::from_millis(2), subscription.recv()).await {
                     Ok(Ok(v)) => {
-                        exec_order.push(v - base_index);
+                        exec_order.push(v as i64 - base_index as i64);
                         if v == base_index + i {
                             break;
                         }
@@ -318,17 +318,17 @@ fn run_scenario(sc: &Scenario, base: &Snapshot, scratch: &Scratch, stats: &Stats
         }
         // everything released: wait for the remaining completions
         let t = Instant::now();
-        while (exec_order.len() as u64) < k && t.elapsed() < Duration::from_millis(FINISH_WAIT_MS) {
+        while (exec_order.iter().filter(|i| **i >= 1).count() as u64) < k && t.elapsed() < Duration::from_millis(FINISH_WAIT_MS) {
             if let Ok(Ok(v)) = tokio::time::timeout(Duration::from_millis(20), subscription.recv()).await {
-                exec_order.push(v - base_index);
+                exec_order.push(v as i64 - base_index as i64);
             }
-            if pending.is_empty() && exec_order.len() as u64 >= k {
+            if pending.is_empty() && exec_order.iter().filter(|i| **i >= 1).count() as u64 >= k {
                 break;
             }
         }
         // a late duplicate would show up here
         if let Ok(Ok(v)) = tokio::time::timeout(Duration::from_millis(3), subscription.recv()).await {
-            exec_order.push(v - base_index);
+            exec_order.push(v as i64 - base_index as i64);
         }
         let mut results = vec![];
         for r in receivers {
@@ -341,9 +341,9 @@ fn run_scenario(sc: &Scenario, base: &Snapshot, scratch: &Scratch, stats: &Stats
         }
         // the executed mark is written after the notification
         let t = Instant::now();
-        let mut unexecuted: Vec<u64>;
+        let mut unexecuted: Vec<i64>;
         loop {
-            unexecuted = server.cluster_log.logs_unexecuted(base_index + k).await.map_err(|e| e.description)?.iter().map(|l| l.index - base_index).collect();
+            unexecuted = server.cluster_log.logs_unexecuted(base_index + k).await.map_err(|e| e.description)?.iter().map(|l| l.index as i64 - base_index as i64).collect();
             if unexecuted.is_empty() || t.elapsed() > Duration::from_millis(200) {
                 break;
             }
@@ -384,22 +384,23 @@ fn mode_kind(mode: &str) -> &str {
 
 /// Checks one observation against the in-order reference; returns (clause, what) per failed clause.
 fn judge(sc: &Scenario, obs: &Obs, reference: &Obs) -> Vec<(String, String)> {
-    let k = sc.k as u64;
+    let k = sc.k as i64;
     let mut out = vec![];
     let mut counts = std::collections::BTreeMap::new();
     for i in &obs.exec_order {
         *counts.entry(*i).or_insert(0u64) += 1;
     }
-    let missing: Vec<u64> = (1..=k).filter(|i| !counts.contains_key(i)).collect();
-    let repeated: Vec<u64> = counts.iter().filter(|(_, c)| **c > 1).map(|(i, _)| *i).collect();
+    let missing: Vec<i64> = (1..=k).filter(|i| !counts.contains_key(i)).collect();
+    // an index <= 0 is an entry that had been executed before the entries under test were appended
+    let repeated: Vec<i64> = counts.iter().filter(|(i, c)| **c > 1 || **i < 1).map(|(i, _)| *i).collect();
     if !missing.is_empty() || !obs.unexecuted.is_empty() {
         out.push(("never-executed".to_string(), format!("committed entries {missing:?} were never executed (still marked unexecuted: {:?}); completion order {:?}", obs.unexecuted, obs.exec_order)));
     }
     if !repeated.is_empty() {
-        out.push(("executed-twice".to_string(), format!("committed entries {repeated:?} were executed more than once; completion order {:?}", obs.exec_order)));
+        out.push(("executed-twice".to_string(), format!("committed entries {repeated:?} were executed more than once (indexes relative to the first entry under test); completion order {:?}", obs.exec_order)));
     }
     if missing.is_empty() && repeated.is_empty() {
-        let sorted: Vec<u64> = (1..=k).collect();
+        let sorted: Vec<i64> = (1..=k).collect();
         if obs.exec_order != sorted {
             out.push(("exec-order".to_string(), format!("entries committed together were executed in the order {:?} when their tasks were scheduled in the order {:?}; log order is {:?}", obs.exec_order, sc.order, sorted)));
         }
@@ -464,7 +465,7 @@ pub(crate) fn run(args: &Args) -> i32 {
                     r.order.sort();
                     let o = run_scenario(&r, &base, &scratch, &stats).unwrap_or_else(|e| engine::machinery_failure(&format!("reference run {}: {e}", r.to_json())));
                     // the in-order run must itself be well-behaved, else there is no reference
-                    let sorted: Vec<u64> = (1..=k as u64).collect();
+                    let sorted: Vec<i64> = (1..=k as i64).collect();
                     if o.exec_order != sorted || !o.unexecuted.is_empty() {
                         report.violation(
                             &format!("c31|mode={}|clause=in-order-run", mode_kind(&sc.mode)),
